@@ -377,7 +377,7 @@ class C02(Check):
     level_note = 'Trusted: the resolver (~40 lines from the property text), generator validity rules V1-V3.'
     required_probes = ('embedded-in-parent-offering-more-names', 'decoy-route-binding-named-like-resource', 'positional-next-multi', 'render-error-injected', 'optional-got-offered-value', 'kwonly-got-offered-value', 'null-route-defaults', 'concurrent-batch',
                        'kind-lambda', 'kind-callable', 'kind-classmethod', 'kind-decorated', 'multi-url-value',
-                       'same-application-embedded-in-second-parent', 'name-spelled-like-generated-code-identifier', 'default-for-name-provided-elsewhere', 'optional-url-binding-absent', 'optional-url-binding-zero', 'optional-url-binding-present', 'url-value-zero', 'multi-url-binding-empty')
+                       'same-url-as-previous-request-while-another-is-served', 'same-application-embedded-in-second-parent', 'name-spelled-like-generated-code-identifier', 'default-for-name-provided-elsewhere', 'optional-url-binding-absent', 'optional-url-binding-zero', 'optional-url-binding-present', 'url-value-zero', 'multi-url-binding-empty')
 
     def generate(self, seed, tier):
         S = Streams(seed)
@@ -404,6 +404,42 @@ class C02(Check):
                 op.update({'granularity': gran, 'order': order, 'preempts': pre})
             ops.append(op)
         return {'world': 'chain', 'seed': seed, 'config': cfg, 'ops': ops}
+
+    def extra_plans(self, tier, base_seed):
+        """Structured part: a client polls one URL (request #1, then #2 with the same URL) while another client's request
+        (#3, other URL values) is served completely at EVERY line boundary of #2 -- on two fixed stacks."""
+        def f(req=(), opt=(), prov=()):
+            return {'req': list(req), 'opt': list(opt), 'kwreq': [], 'kwopt': [], 'provides': list(prov), 'positional_next': False}
+        stacks = [
+            {'url': [['a', 'int'], ['b', 'str']], 'resources': ['c'], 'route_resources': ['d'],
+             'mws': [{'name': 'M0', 'level': 'app', 'funcs': {'request': f(['request'], ['c'], ['e'])}},
+                     {'name': 'M1', 'level': 'route', 'funcs': {'request': f(['a', 'e'], [], ['g']), 'endpoint': f(['b'], ['g'], ['h'])}}],
+             'ep': dict(f(['a', 'b', 'g'], ['h', 'c', 'd']), kind='function'), 'rn': dict(f(['context', 'a'], ['e']), kind='function')},
+            {'url': [['a', 'optint']], 'resources': [], 'route_resources': [],
+             'mws': [{'name': 'M0', 'level': 'route', 'funcs': {'endpoint': f(['a'], [], ['e'])}}],
+             'ep': dict(f(['a', 'e', 'request']), kind='method'), 'rn': dict(f(['context'], ['a']), kind='lambda'),
+             'decoy': [['dq0', 'optint']]},
+        ]
+        for cfg in stacks if tier == 'thorough' else stacks[:1]:
+            n = self.solo_lines(cfg)
+            for k in range(1, n + 1):
+                yield {'world': 'chain', 'seed': base_seed, 'config': cfg, 'mode': 'poll-sweep',
+                       'ops': [{'reqs': [{'seq': 1, 'kind': 'route'}], 'concurrent': False},
+                               {'reqs': [{'seq': 2, 'kind': 'route', 'vseq': 1}, {'seq': 3, 'kind': 'route'}], 'concurrent': True,
+                                'granularity': 'line', 'order': ['T2', 'T3'], 'preempts': [[k, 'T3']]}]}
+
+    _SOLO = {}
+
+    def solo_lines(self, cfg):
+        key = canon(cfg)
+        if key not in self._SOLO:
+            hosts = build(cfg, 'cal')
+            RT.reset({})
+            _, path = url_values(cfg, 1)
+            sched = BatonScheduler(['T'], [], 'line', WATCH)
+            sched.run({'T': lambda: call_app(hosts[1][0], make_environ('GET', path), validate=False)})
+            self._SOLO[key] = sched.steps
+        return self._SOLO[key]
 
     # ------------------------------------------------------------------
     def execute(self, plan):
@@ -441,7 +477,7 @@ class C02(Check):
             host = r.get('host', 1) if r.get('host', 1) in hosts else 1
             pcfg = cfg.get('parent2') if host == 2 else cfg.get('parent')
             if r['kind'] == 'route':
-                _, path = url_values(cfg, r['seq'])
+                _, path = url_values(cfg, r.get('vseq', r['seq']))      # vseq: the same URL as an earlier request (polling)
                 path = (pcfg['prefix'] if pcfg else '') + path
             else:
                 path = '/nowhere/%d' % r['seq']
@@ -460,6 +496,8 @@ class C02(Check):
                     res.violate(K + 'thread-raised:%s' % type(e).__name__, '%s: %r' % (n, e), step)
                 res.fire('preempt', len(sched.switches))
                 res.probe('concurrent-batch')
+                if any('vseq' in r for r in op['reqs']):
+                    res.probe('same-url-as-previous-request-while-another-is-served')
                 res.nontrivial = True
                 mode = 'conc%d' % len(op['reqs'])
                 res.ev(step, 'batch', op.get('granularity'), 'switches', len(sched.switches))
@@ -495,7 +533,7 @@ class C02(Check):
             res.violate(K + 'request-failed:%s:%s' % (kind, ex.code if ex.escaped is None else type(ex.escaped).__name__),
                         ctx + ' -> %s %r\n%s\nconfig %s' % (ex.status, ex.escaped, detail, canon(cfg)), step)
             return
-        urlv, _ = url_values(cfg, seq)
+        urlv, _ = url_values(cfg, r.get('vseq', seq))
         seen_request, seen_ds = [], []
         descr = []
         shape = '%s|%s|%s|%s|%d' % (cfg['ep']['kind'], cfg['rn']['kind'], kind, mode, len(cfg['mws']))
